@@ -70,12 +70,13 @@ def damage(m, rng):
         name, vs, ts = m["meshes"][-1]; m["meshes"][-1] = (name, vs, list(ts)[:-1]); return m, "open-mesh"
     return m, "old-ordering"
 
-def make_case(ck, cid, m, style, old, nprobes, rng, has_cond=True, cond_extra=None, cond_drop=None, cond_header=True, cond_lines=None):
+def make_case(ck, cid, m, style, old, nprobes, rng, has_cond=True, cond_extra=None, cond_drop=None, cond_header=True, cond_lines=None, tokens=None, probes=None):
     d = os.path.join(ck.workdir, "c%d" % cid)
     shutil.rmtree(d, ignore_errors=True); os.makedirs(d)
-    g = gd.write_geom(m, d, "tri", style, rng)
+    g = gd.write_geom(m, d, "tri", style, rng, tokens=tokens)
     if g is None:
         style = "1.1"; g = gd.write_geom(m, d, "tri", style, rng)
+    T = gd.write_geom.last
     lines = []
     if has_cond:
         mc = dict(m)
@@ -103,17 +104,18 @@ def make_case(ck, cid, m, style, old, nprobes, rng, has_cond=True, cond_extra=No
     if style == "1.0":
         mm["domains"] = [(n.replace(":", "_"), bs) for n, bs in mm["domains"]]
     if not has_cond: mm = dict(mm); mm["cond"] = None
-    probes = gd.probe_points(m, rng, nprobes) if nprobes else []
-    w, aux = gd.abstract(mm, probes, old)
-    cw, fl = gd.cond_wire(mm, lines, has_cond, cond_header)
-    mline = core.fcase("c11", w + cw, fl)
+    if probes is None: probes = gd.probe_points(m, rng, nprobes) if nprobes else []
+    aux = gd.abstract(mm, probes, old)
+    head, tail, ids = gd.file_wire(m, T)
+    cw, fl = gd.cond_wire(mm, lines, has_cond, cond_header, ids)
+    mline = core.fcase("c11", [1 if old else 0] + head + aux["isign"] + tail + aux["probe_wire"] + cw, fl)
     hline = core.fcase("c11", [1, cid, 1 if has_cond else 0, 1 if old else 0], [c for p in probes for c in p])
     # expected conductivity per domain name: the first entry of that name
     first = {}
     for l in lines:
         if l[0] == "e" and l[1] not in first: first[l[1]] = float(l[2])
     return dict(cid=cid, model=mm, mline=mline, hline=hline, probes=probes, aux=aux, style=style, old=old, has_cond=has_cond, dir=d,
-                cond_lines=[list(l) for l in lines], cond_header=cond_header, cond_first=first)
+                cond_lines=[list(l) for l in lines], cond_header=cond_header, cond_first=first, tokens=T, orig=m)
 
 def feq(a, b): return (a == b) or (a != a and b != b)
 
@@ -212,15 +214,13 @@ def main(replay=None):
     if replay:
         R = json.load(open(replay))
         for rc in R.get("cases", []):
-            m = rc["model"]; m["meshes"] = [(n, [tuple(v) for v in vs], [tuple(t) for t in ts]) for n, vs, ts in m["meshes"]]
+            m = rc["orig"]; m["meshes"] = [(n, [tuple(v) for v in vs], [tuple(t) for t in ts]) for n, vs, ts in m["meshes"]]
             m["interfaces"] = [(n, [tuple(x) for x in ms]) for n, ms in m["interfaces"]]; m["domains"] = [(n, [tuple(x) for x in bs]) for n, bs in m["domains"]]
-            c = add(m, "1.1", rc["old"], rc.get("tag", "replay"), 0, has_cond=rc.get("has_cond", True),
-                    cond_lines=rc.get("cond_lines"), cond_header=rc.get("cond_header", True))
-            c["probes"] = [tuple(p) for p in rc.get("probes", [])]
-            w, aux = gd.abstract(c["model"], c["probes"], c["old"])
-            cw, fl = gd.cond_wire(c["model"], [tuple(l) for l in c["cond_lines"]], c["has_cond"], c["cond_header"])
-            c["mline"] = core.fcase("c11", w + cw, fl); c["aux"] = aux
-            c["hline"] = core.fcase("c11", [1, c["cid"], 1 if c["has_cond"] else 0, 1 if c["old"] else 0], [x for p in c["probes"] for x in p])
+            T = rc["tokens"]
+            T["meshes"] = [tuple(x) for x in T["meshes"]]; T["ifaces"] = [(g_, [tuple(t) for t in ts]) for g_, ts in T["ifaces"]]
+            T["domains"] = [(n, [tuple(t) for t in ts]) for n, ts in T["domains"]]
+            add(m, rc["style"], rc["old"], rc.get("tag", "replay"), 0, has_cond=rc.get("has_cond", True), tokens=T,
+                cond_lines=rc.get("cond_lines"), cond_header=rc.get("cond_header", True), probes=[tuple(p) for p in rc.get("probes", [])])
     else:
         nbase = 14 if quick else 60
         # the witness of nested_classification_correct_refuted, replayed on every run
@@ -267,7 +267,7 @@ def main(replay=None):
     nontriv = set(); mism = 0; nprobe = 0; errs = 0
     for c, m_, i_ in zip(cases, mo, io):
         mi, mf = core.fparse(m_); ii, if_ = core.fparse(i_)
-        rep = dict(kind="correspondence", cases=[dict(model=c["model"], style=c["style"], old=c["old"], has_cond=c["has_cond"], tag=c["tag"], probes=c["probes"],
+        rep = dict(kind="correspondence", cases=[dict(orig=c["orig"], tokens=c["tokens"], style=c["style"], old=c["old"], has_cond=c["has_cond"], tag=c["tag"], probes=c["probes"],
                                                      cond_lines=c["cond_lines"], cond_header=c["cond_header"])],
                    replay_cmd="./check C11 --replay <this file>")
         if ii is None:
